@@ -44,6 +44,43 @@ fn miss_count(run: &Run) -> u64 {
     run.rl().stat().payload_cache_miss
 }
 
+/// A snapshot (`dump_data()`) taken earlier and iterated later must still yield exactly the
+/// entries that were live when it was taken, whatever the store has done since.
+pub struct Held {
+    snap: raft_log::DumpRaftLog<crate::types::VT>,
+    want: Vec<(crate::types::LogId, String)>,
+    taken_at_op: usize,
+}
+
+pub fn held_snapshot_step(run: &mut Run, held: &mut Option<Held>, sel: u64) -> Result<(), Fail> {
+    let r = mix(sel, 7000 + run.op_no as u64) % 5;
+    match held {
+        None if r == 0 => {
+            *held = Some(Held { snap: run.rl().dump_data(), want: run.model.cur.entries(), taken_at_op: run.op_no });
+        }
+        Some(h) if r == 1 || r == 2 => {
+            let mut got = vec![];
+            for it in h.snap.iter() {
+                match it {
+                    Ok(x) => got.push(x),
+                    Err(e) => {
+                        return Err(Fail::new("held-snapshot-read-error", format!("a dump_data() snapshot taken after op {} and iterated after op {} returned an error: {e} (it held {} entries)", h.taken_at_op, run.op_no, h.want.len())));
+                    }
+                }
+            }
+            if got != h.want {
+                return Err(Fail::new("held-snapshot-mismatch", format!("a dump_data() snapshot taken after op {} and iterated after op {} yields {:?}, at the time it was taken the live entries were {:?}", h.taken_at_op, run.op_no, crate::driver::brief(&got), crate::driver::brief(&h.want))));
+            }
+            run.classes.hit("held_snapshot_iterated");
+            if r == 2 {
+                *held = None;
+            }
+        }
+        _ => {}
+    }
+    Ok(())
+}
+
 pub fn check_reads(run: &mut Run, sel: u64) -> Result<(), Fail> {
     let lagging = !run.worker_idle();
     let m0 = miss_count(run);
@@ -126,19 +163,28 @@ fn readers(run: &mut Run, k: u8, steps: u8, sel: u64) -> Result<(), Fail> {
     }
 }
 
-/// Every `pread` must lie inside bytes already written to that file.
+/// Every `pread` must lie inside bytes already written to that file. A file that has been
+/// unlinked (or unlinked and re-created under the same name) may still be read through a
+/// descriptor opened earlier — a held snapshot does that — so the longest length the name ever
+/// had is what counts.
 pub fn check_preads(trace: &[Ev]) -> Result<u64, Fail> {
-    let mut sh = Shadow::default();
+    let mut len: std::collections::BTreeMap<u32, u64> = Default::default();
     let mut n = 0;
-    for (i, ev) in trace.iter().enumerate() {
-        if let Ev::Pread { file, off, len, ret, .. } = ev {
-            n += 1;
-            let have = sh.files.get(*file as usize).map(|f| f.content.len() as u64).unwrap_or(0);
-            if off + len > have || *ret != *len as i64 {
-                return Err(Fail::new("pread-beyond-written", format!("pread(file {}, off {}, len {}) = {} but only {} bytes had been written to that file", file, off, len, ret, have)));
+    for ev in trace.iter() {
+        match ev {
+            Ev::Write { file, off, data, .. } => {
+                let e = len.entry(*file).or_insert(0);
+                *e = (*e).max(off + data.len() as u64);
             }
+            Ev::Pread { file, off, len: l, ret, .. } => {
+                n += 1;
+                let have = len.get(file).copied().unwrap_or(0);
+                if off + l > have || *ret != *l as i64 {
+                    return Err(Fail::new("pread-beyond-written", format!("pread(file {}, off {}, len {}) = {} but only {} bytes had ever been written to that file", file, off, l, ret, have)));
+                }
+            }
+            _ => {}
         }
-        sh.apply(i, ev);
     }
     Ok(n)
 }
@@ -153,7 +199,7 @@ impl Prop for C07 {
     fn rule(&self) -> String {
         "proptest generates (config with log_cache_max_items/capacity from {0,1,2,3,8,10,64,unlimited} and all chunk limits, history, worker schedule). The flush worker is gated at every write/fdatasync/unlink/callback by libc interposition and advances only on generated Steps ops, \
          so after every caller op it sits at an arbitrary point (data buffered, written, between per-file syncs, after the boundary update, before an unlink). After every op and after every single worker step: read(0,MAX), a derived range and dump_data().iter() must return exactly the model's live entries without error; \
-         Readers ops run 1/2/4 threads reading ranges concurrently while the worker is stepped; clean restarts under re-drawn limits are included. Post-hoc: every traced pread lies inside bytes already written. \
+         dump_data() snapshots are also held across later ops / worker steps / restarts and iterated afterwards (they must yield the entries live when taken); Readers ops run 1/2/4 threads reading ranges concurrently while the worker is stepped; clean restarts under re-drawn limits are included. Post-hoc: every traced pread lies inside bytes already written. \
          Non-trivial iff >=1 read was served from disk (cache miss) while the worker still had un-run work, or concurrent readers ran with >=1 cache miss; distinct = case hash. \
          Known class excluded by construction in the main search (re-append at or below an earlier id under a finite cache, count reported) and probed separately."
             .to_string()
@@ -179,8 +225,12 @@ impl Prop for C07 {
         let avoid = limited && ctx.known.is_known(KNOWN_REAPPEND);
         let res = with_run(&case.cfg, true, &[], |run| {
             run.avoid_low_reappend = avoid;
+            let mut held: Option<Held> = None;
             let r = (|| -> Result<(), Fail> {
                 for op in &case.ops {
+                    if run.inst.is_some() {
+                        held_snapshot_step(run, &mut held, case.sel)?;
+                    }
                     match op {
                         OpSpec::Reject { .. } | OpSpec::Probe(_) | OpSpec::DropReopen { .. } => continue,
                         OpSpec::Reopen { cfg } => {
